@@ -64,6 +64,38 @@ Fixpoint bind (sig : list pkind) (args : list elem) : list elem :=
   end.
 Definition slot (i : nat) (slots : list elem) : elem := nth i slots ENull.
 
+(* named arguments (callMethodParams, the NamedArgument branch): after the positional arguments
+   each  name: v  goes to the single parameter of that name.  An unknown name, the name of a
+   variadic parameter, and a parameter that already has an argument (positional, or an earlier
+   name) are an Error (None).  A parameter between them that receives nothing keeps null.  The
+   result is the argument list that the positional binder then sees. *)
+Fixpoint pindex (pn : list (string * pkind)) (n : string) (i : nat) : option nat :=
+  match pn with
+  | [] => None
+  | (x, k) :: r =>
+      if match k with PSingle => String.eqb x n | PVariadic => false end then Some i else pindex r n (S i)
+  end.
+Fixpoint set_slot (i : nat) (v : elem) (l : list elem) : list elem :=
+  match i, l with
+  | O, [] => [v]
+  | O, _ :: r => v :: r
+  | S j, [] => ENull :: set_slot j v []
+  | S j, x :: r => x :: set_slot j v r
+  end.
+Fixpoint place_named (pn : list (string * pkind)) (npos : nat) (used : list nat) (acc : list elem)
+         (named : list (string * elem)) : option (list elem) :=
+  match named with
+  | [] => Some acc
+  | (n, v) :: r =>
+      match pindex pn n 0 with
+      | None => None
+      | Some i => if (i <? npos)%nat || existsb (Nat.eqb i) used then None
+                  else place_named pn npos (i :: used) (set_slot i v acc) r
+      end
+  end.
+Definition bind_named (pn : list (string * pkind)) (pos : list elem) (named : list (string * elem)) : option (list elem) :=
+  place_named pn (List.length pos) [] pos named.
+
 (* ------------------------------------------------------------------ list helpers on Z indexes *)
 Definition zlen {A} (l : list A) : Z := Z.of_nat (List.length l).
 (* l[a:b] for 0 <= a <= b <= len *)
